@@ -1051,6 +1051,14 @@ func (fr *frame) makeInterface(t *ssa.MakeInterface, st *State, reach string) Va
 	u.declFun(unbox, fmt.Sprintf("(declare-fun %s (Ref) %s)", unbox, x.Sort))
 	b := ft.define("iface", SRef, sx(box, x.S))
 	ft.assume("true", and(not(eq(b, "null")), eq(sx("dyntype", b), fmt.Sprint(id)), eq(sx(unbox, b), x.S)))
+	if fr.taintDecls() {
+		// C17: a boxed string is as clean as the string; other boxed scalars carry no secret
+		if x.Sort == SStr {
+			ft.assume("true", eq(sx("spec$cleanAny", b), sx("spec$secretFree", x.S)))
+		} else if x.Sort == SInt || x.Sort == SBool {
+			ft.assume("true", sx("spec$cleanAny", b))
+		}
+	}
 	return Val{T: Term{b, SRef}}
 }
 
@@ -1260,6 +1268,13 @@ func (fr *frame) siteAsserts(call *ssa.Call, args []Val, st *State, reach string
 			continue
 		}
 		env := fr.ownEnv(st, fr.entry, call.Block())
+		if after {
+			// the value returned by the call (the statement's assignment has not happened yet)
+			_, isTuple := call.Type().(*types.Tuple)
+			if rv, ok := fr.vals[call]; ok && rv.Tuple == nil && !isTuple && rv.T.S != "" {
+				env.vars["callresult"] = SVal{T: ft.termOf(rv, call.Type()), Typ: call.Type()}
+			}
+		}
 		for i, v := range args {
 			if i < len(call.Call.Args) {
 				env.vars[fmt.Sprintf("arg%d", i)] = SVal{T: ft.termOf(v, call.Call.Args[i].Type()), Typ: call.Call.Args[i].Type()}
